@@ -40,20 +40,24 @@ def tlc_jobs(structs, quick, seed):
         mod = {'CatalogGen': st.module()}
         jobs.append((f'{st.label}: full state graph, {st.nconf} configurations', st, 'model',
                      dict(cfg=st.cfg(MODEL_INVARIANTS + ['TableInv', 'MetaInv'], record=False, max_iter=8), mods=mod, kw={})))
-        deep = (not quick) and st.nconf <= 6
+        deep = (not quick) and st.nconf <= 6 and len(st.ctrls) <= 2 and st.label not in ('shared', 'elem')
         ln = 3 if deep else 2
         jobs.append((f'{st.label}: every configuration x every operator sequence of length {ln - 1}', st, 'paths',
                      dict(cfg=st.cfg(['EmitInv'], record=True, max_len=ln, first_setconf=True), mods=mod, kw={})))
-        depth, num = (4, 150) if quick else (9, 1500)
+        depth, num = (4, 5) if quick else (8, 20 if st.nconf >= 24 else 40)
         jobs.append((f'{st.label}: {num} random walks of {depth} operator applications', st, 'walks',
                      dict(cfg=st.cfg(['EmitInv'], record=True, max_len=depth, first_setconf=False), mods=mod,
                           kw=dict(simulate=dict(num=num), depth=depth + 2, seed=seed % 100000 + 1))))
+    st = structs[1]
+    for kw, inv in ((dict(dec_sign=1), 'IncDecInverse'), (dict(sev_dec_sign=1), 'SeveralOpposite')):
+        jobs.append((f'specification mutant {kw}: TLC must find {inv} violated', st, 'mutant',
+                     dict(cfg=st.cfg(MODEL_INVARIANTS, record=False), mods={'CatalogGen': st.module(**kw)}, kw={}, inv=inv)))
     return jobs
 
 
 def run_job(job):
     name, st, kind, a = job
-    workers = 1 if kind == 'walks' else 2
+    workers = 1 if kind == 'walks' or st.nconf <= 6 else 3
     return tlc.run('CatalogGen', a['cfg'], extra_modules=a['mods'], workers=workers, timeout=1500, heap='2g', **a['kw'])
 
 
@@ -66,11 +70,23 @@ def body(chk: check.Check):
                 'configuration + random walks); distinct = distinct (structure, operator sequence) and (structure, configuration)')
 
     # ------------------------------------------------------------------ (A) TLC
+    import time
+    tm = {}
+    t_ = time.time()
     jobs = tlc_jobs(structs, quick, chk.seed)
-    with ThreadPoolExecutor(max_workers=6) as pool:
+    jobs.sort(key=lambda j: -j[1].nconf)  # the big ones first
+    with ThreadPoolExecutor(max_workers=10) as pool:
         results = list(pool.map(run_job, jobs))
+    tm['tlc'] = round(time.time() - t_, 1)
+    t_ = time.time()
     tables, paths = {}, {}
-    for (name, st, kind, _), res in zip(jobs, results):
+    mutants = []
+    for (name, st, kind, a), res in zip(jobs, results):
+        if kind == 'mutant':
+            if res.error:
+                raise tlc.MachineryError(res.error[:1000])
+            mutants.append((name, res.violated == a['inv'], f'violated={res.violated}'))
+            continue
         chk.add_tlc(name, res)
         if kind == 'model':
             tables[st.label] = catreplay.Table(st, res.emitted)
@@ -81,6 +97,7 @@ def body(chk: check.Check):
             for p in res.emitted:
                 if p.get('kind') == 'path' and p['steps']:
                     seen.setdefault(catreplay.path_key(st.label, p), p)
+        res.raw, res.emitted = '', []
     chk.extra['structures'] = [dict(label=s.label, controllers=[(c['name'], len(c['alts'])) for c in s.ctrls], configurations=s.nconf,
                                     catalogs=sum(1 for n in s.nodes if n['op'] == 'cat'), features=s.features,
                                     operator_sequences=len(paths.get(s.label, {}))) for s in structs]
@@ -97,6 +114,8 @@ def body(chk: check.Check):
             chk.distinct.add((st.label, cfg))
         for m in val['mismatches']:
             chk.violation(m['key'], dict(struct=st.label, **m['detail']), match=m['match'])
+    tm['tables'] = round(time.time() - t_, 1)
+    t_ = time.time()
     t0 = tables[structs[4].label]
     r0 = t0.rows[sorted(t0.rows)[-1]]
     chk.sample(dict(structure=structs[4].label, configuration=dec(r0['id']), values_per_row=r0['vals'],
@@ -107,7 +126,7 @@ def body(chk: check.Check):
     work = []
     for st in structs:
         plist = list(paths.get(st.label, {}).values())
-        value_every = 1 if quick else 3
+        value_every = 10 if quick else 5
         for base in range(0, len(plist), 400):
             work.append((st, tables[st.label], plist[base:base + 400], base, value_every, None))
     pres = par.pmap(catreplay.replay_paths, work, chunk=1, timeout=900)
@@ -127,24 +146,23 @@ def body(chk: check.Check):
             stats[k] = stats.get(k, 0) + v
         for m in val['mismatches']:
             chk.violation(m['key'], dict(struct=st.label, **m['detail']), match=m['match'])
+    tm['paths'] = round(time.time() - t_, 1)
+    t_ = time.time()
     chk.extra['operator_applications_replayed'] = op_count
     chk.extra['observed_not_judged'] = dict(
         modify_controller_return_value=sorted(k for k in stats if k.startswith('modify_return')),
         note='return value of modify_controller ("number of actual modifications") is recorded, not judged: the docstring does not fix its sign')
     chk.extra['several_operator_tries'] = stats.get('several_tries', 0)
-    some = next(iter(paths[structs[2].label].values()))
+    some = next((p for p in paths[structs[2].label].values() if p['steps'][-1]['op'] == 'pair' and len(p['steps']) >= 3),
+                next(iter(paths[structs[2].label].values())))
     chk.sample(dict(structure=structs[2].label, operator_sequence=[
         dict(op=s['op'], a=s['a'], b=s['b'], dir=s['dir'], step=s['step'], expected=tables[structs[2].label].id_of[tuple(s['cfg'])])
         for s in some['steps']]))
 
     # ------------------------------------------------------------------ negative controls
     st = structs[1]  # 'two'
-    for kw, inv in ((dict(dec_sign=1), 'IncDecInverse'), (dict(sev_dec_sign=1), 'SeveralOpposite')):
-        res = tlc.run('CatalogGen', st.cfg(MODEL_INVARIANTS, record=False), extra_modules={'CatalogGen': st.module(**kw)},
-                      workers=2, timeout=600, heap='2g')
-        if res.error:
-            raise tlc.MachineryError(res.error[:1000])
-        chk.control(f'specification mutant {kw}: TLC must find {inv} violated', res.violated == inv, f'violated={res.violated}')
+    for name, detected, note in mutants:
+        chk.control(name, detected, note)
     # a mutated expectation must be reported by the driver
     tab = tables[st.label]
     plist = [p for p in paths[st.label].values() if p['steps'][-1]['op'] == 'inc' and p['steps'][-1]['step'] == 1][:1]
@@ -181,6 +199,8 @@ def body(chk: check.Check):
                 status != 'ok' or any(m['key'].startswith('operator:') for m in val['mismatches']),
                 f'{status}: {len(val["mismatches"]) if status == "ok" else val}')
 
+    tm['controls'] = round(time.time() - t_, 1)
+    chk.extra['phase_wall_s'] = tm
     chk.uncovered += ['structures with more than 3 controllers or more than 4 alternatives',
                       'spaces larger than maximum_number_catalog_expressions (all_configurations is None there)',
                       'names containing the reserved characters : and ;', 'two different Controller objects carrying the same name',
